@@ -43,7 +43,7 @@ ASSUMPTIONS = [
     'copy.deepcopy is a faithful clone of a table (spot-checked by '
     're-executing sampled sequences from scratch)',
 ]
-REQUIRED = ['steps', 'oracle_runs', 'invariant_evaluations',
+REQUIRED = ['steps', 'refused_then_checked', 'oracle_runs', 'invariant_evaluations',
             'absent_id_probes', 'stale_id_probes', 'layout_csc_seen',
             'layout_unsorted_seen', 'empty_table_states', 'io_steps',
             'replayed_from_scratch']
@@ -481,6 +481,32 @@ def make_ops():
                              inplace=False)
             return t.concat([o], axis=axis), None
 
+        @op('update_ids-collide-retained-%s-inplace' % a, 'refusal')
+        def f(ctx, t, m, r, axis=axis):
+            ids = m.ids(axis)
+            if len(ids) < 2:
+                raise Refused()
+            # a partial renaming onto an id that is retained: must be refused
+            t.update_ids({ids[0]: ids[1]}, axis=axis, strict=False,
+                         inplace=True)
+            raise Violation('C05/duplicate-ids-accepted', 'update_ids mapped '
+                            '%r onto the retained id %r and was accepted' %
+                            (ids[0], ids[1]))
+
+        @op('filter-unknown-id-%s-inplace' % a, 'refusal')
+        def f(ctx, t, m, r, axis=axis):
+            ids = m.ids(axis)
+            t.filter(ids[:1] + ['~no such id~'], axis=axis, inplace=True)
+            raise Violation('C05/unknown-id-accepted', 'in-place filter '
+                            'naming an unknown id was accepted')
+
+        @op('sort_order-unknown-id-%s' % a, 'refusal')
+        def f(ctx, t, m, r, axis=axis):
+            ids = m.ids(axis)
+            t.sort_order(ids[:-1] + ['~no such id~'], axis=axis)
+            raise Violation('C05/unknown-id-accepted', 'sort_order naming an '
+                            'unknown id was accepted')
+
         @op('touch-%s' % a, 'read')
         def f(ctx, t, m, r, axis=axis):
             ids = m.ids(axis)
@@ -621,6 +647,23 @@ def apply_step(ctx, name, t, m, r, ever, hist):
     except REFUSALS as e:
         ctx.count('refused_steps')
         ctx.cls('refusal', '%s:%s' % (fam, type(e).__name__))
+        # a refused operation is still a step of the history: the table it
+        # was called on must be coherent, and what it was before
+        try:
+            oracle(ctx, t, r, ever, dict(desc, refused=type(e).__name__))
+        except CoherenceBroken as ee:
+            raise Violation('C05/class-invariant/after-refused-' + fam,
+                            '%s after %s was refused (%s); case=%r' %
+                            (ee, name, type(e).__name__, desc))
+        d = snap.diff(snap.snap(t), snap.snap_spec(m),
+                      fields=('obs_ids', 'samp_ids', 'D', 'obs_md',
+                              'samp_md'))
+        if d:
+            raise Violation('C05/refused-op-changed-table/' + fam, '%s was '
+                            'refused (%s) but left the table changed: %s; '
+                            'case=%r' % (name, type(e).__name__,
+                                         '; '.join(d), desc))
+        ctx.count('refused_then_checked')
         raise Refused()
     except CoherenceBroken as e:
         raise Violation('C05/class-invariant/' + fam, '%s during %s; '
@@ -745,7 +788,7 @@ def setup(ctx):
                                 DisjointIDError)
     ctx.UnknownIDError = UnknownIDError
     REFUSALS = (TableException, UnknownIDError, DisjointIDError, IndexError,
-                ValueError, ZeroDivisionError)
+                ValueError, ZeroDivisionError, KeyError)
     install_invariant(ctx)
 
 
